@@ -234,6 +234,8 @@ func Harness_C18_Chtimes() {
 	c18Check("Chtimes", root, rec, err, name)
 }
 
+//verif:split-quick root=0..3 old.len=0..4
+//verif:split-thorough root=0..3 old.len=0..6 new.len=0..6
 func Harness_C18_Rename() {
 	root, rec, fs := c18Setup()
 	L := c18L() - 1
